@@ -89,6 +89,10 @@ func TestParseItemGolden(t *testing.T) {
 		"OPTIONS * RTSP/1.0\r\nCSeq: 1\r\n\r\n",
 		"\r\nRTSP/1.0 200 OK\r\n\r\n",
 		"RTSP/1.0 200 O\rK\r\n\r\n",
+		"RTSP/1.0 500 bad\nCSeq: 1\r\n\r\n",
+		"RTSP/1.0 200 OK\r\nX: a\rb\r\n\r\n",
+		"RTSP/1.0 200 OK\r\nX: a\nCSeq: 9\r\n\r\n",
+		"RTSP/1.0 200 OK\r\nX: a\x00b\r\n\r\n",
 	}
 	for _, b := range bad {
 		if _, n, err := ParseItem([]byte(b)); err == nil {
